@@ -392,6 +392,34 @@ func Generate(r *rand.Rand, profile string) *Scenario {
 			}
 		}
 	}
+	if profile == "fifo" && chance(0.35) {
+		// an older, partially running multi-sub-group job of the same leaf queue and priority as the
+		// comparable jobs: its leader is pending (e.g. recreated) while its workers run above their
+		// minimum. Its position in the job order must not disturb the order among the comparable jobs.
+		j := len(sc.Jobs)
+		job := Job{Name: fmt.Sprintf("j%d", j+1), Queue: leaves[0], Prio: 50, Preempt: 1, Min: 2, Age: 7200 + r.Intn(600), LastStart: 36000,
+			Subs: []Sub{{Name: "leader", Min: 1}, {Name: "workers", Min: 1}}}
+		var placed []Pod
+		ok := true
+		for k := 0; k < 2; k++ {
+			p := Pod{Name: fmt.Sprintf("j%d-p%d", j+1, k+2), Job: j + 1, Cpu: 100, Mem: 100, Gpu: 0, Sub: 2, Phase: "P"}
+			done := false
+			for _, ni := range r.Perm(nn) {
+				if tryPlace(&p, ni) {
+					p.Phase, p.Node = "R", ni+1
+					done = true
+					break
+				}
+			}
+			ok = ok && done
+			placed = append(placed, p)
+		}
+		if ok {
+			sc.Jobs = append(sc.Jobs, job)
+			sc.Pods = append(sc.Pods, Pod{Name: fmt.Sprintf("j%d-p1", j+1), Job: j + 1, Cpu: 100, Mem: 100, Gpu: 0, Sub: 1, Phase: "P"})
+			sc.Pods = append(sc.Pods, placed...)
+		}
+	}
 	_ = totalGpus
 	_ = hasChild
 	sc.Normalize()
